@@ -49,6 +49,7 @@ type worker[T any, JobType iJob[T]] struct {
 	errorChan       chan error
 	waiters         *sync.Cond
 	tickers         []*time.Ticker
+	tickerDones     []chan struct{}
 	mx              sync.RWMutex
 	ctx             context.Context
 	cancel          context.CancelFunc
@@ -398,12 +399,21 @@ func (w *worker[T, JobType]) goRemoveIdleWorkers() {
 	}
 
 	ticker := time.NewTicker(interval)
+	done := make(chan struct{})
 	w.mx.Lock()
 	w.tickers = append(w.tickers, ticker)
+	w.tickerDones = append(w.tickerDones, done)
 	w.mx.Unlock()
 
 	go func() {
-		for range ticker.C {
+		for {
+			// a stopped ticker never closes its channel, so wait for the stop signal too
+			select {
+			case <-done:
+				return
+			case <-ticker.C:
+			}
+
 			// Calculate the target number of idle workers
 			targetIdleWorkers := w.numMinIdleWorkers()
 
@@ -470,7 +480,12 @@ func (w *worker[T, JobType]) stopTickers() {
 		ticker.Stop()
 	}
 
+	for _, done := range w.tickerDones {
+		close(done)
+	}
+
 	w.tickers = make([]*time.Ticker, 0)
+	w.tickerDones = nil
 }
 
 func (w *worker[T, JobType]) closeChannels() {
@@ -629,6 +644,8 @@ func (w *worker[T, JobType]) Restart() error {
 		return ErrNotRunningWorker
 	}
 
+	// the idle worker remover of the previous run ends with that run
+	w.stopTickers()
 	w.closeChannels()
 
 	w.mx.Lock()
